@@ -170,10 +170,11 @@ def lock_classes():
     return {a: int(b) for a, b in re.findall(r'\("(\w+)",\s*(\d+)\)', m.group(1))} if m else {}
 
 
-def lock_battery(rng, path, wal):
+def lock_battery(rng, path, wal, oflags="0 1 0"):
     """every API call in the states that change which locks it needs: node split, file growth, node removal with page
-    release, database create / destroy, cursor writes, sync, checkpoint, metadata"""
-    L = ["open %s %d 0 1 0" % (path, wal), "db 0 1 000", "db 1 2 000"]
+    release, database create / destroy, cursor writes, sync, checkpoint, metadata.  oflags = rdonly trunc notrim of the
+    harness `open` line (read-only together with truncate opens a writable store)"""
+    L = ["open %s %d %s" % (path, wal, oflags), "db 0 1 000", "db 1 2 000"]
     n = rng.choice([40, 80, 300])
     for i in range(n):
         L.append("put 0 %s 0 %s 0 0" % (("k%04d" % i).encode().hex(), rng.bytes(rng.choice([1, 50, 600])).hex()))
@@ -183,7 +184,7 @@ def lock_battery(rng, path, wal):
     L += ["copen 2 0 6 %s 0" % b"k0010".hex(), "cget 2", "cclose 2"]
     for i in range(0, n, rng.choice([1, 2, 3])):
         L.append("del 0 %s 0" % (("k%04d" % i).encode().hex()))
-    L += ["del 1 6161 0", "get 0 %s 0" % b"k0001".hex(), "sync", "checkpoint", "setmeta 0 %s" % rng.bytes(rng.choice([4, 5000])).hex(), "getmeta 0", "dump 0"]
+    L += ["del 1 6161 0", "get 0 %s 0" % b"k0001".hex(), "sync", "checkpoint", "setmeta 0 %s" % rng.bytes(rng.choice([4, 5000])).hex(), "getmeta 0 6000", "dump 0"]
     L += ["dbdestroy 0", "db 0 1 000", "put 0 6161 0 62 0 0", "sync", "close", "open %s %d 0 0 0" % (path, wal), "db 0 1 000", "dump 0", "close"]
     return L
 
@@ -198,9 +199,13 @@ def lock_order_stage(run, work, nrandom):
     ranks = dict(ranks, other=max(ranks.values()) + 1)
     exe = vlib.build_harness("h_lockord")
     scripts = []
-    for i in range(4):
+    need = {}
+    for i, (wal, ofl) in enumerate([(0, "0 1 0"), (1, "0 1 0"), (0, "1 1 0"), (1, "1 1 0"), (1, "0 1 1"), (0, "0 1 1")]):
         rng = run.rng.fork()
-        scripts.append(("battery%d" % i, lock_battery(rng, os.path.join(work, "lb%d.db" % i), i % 2)))
+        name = "battery%d" % i
+        scripts.append((name, lock_battery(rng, os.path.join(work, "lb%d.db" % i), wal, ofl)))
+        # the lock skeleton of a put that allocates (coq/CC/KvLocks.v call_put): store, database, allocator, file, log
+        need[name] = [("store", "db"), ("db", "fsm"), ("db", "exf")] + ([("db", "wal")] if wal else [])
     for i in range(nrandom):
         rng = run.rng.fork()
         ls, meta = kvcommon.gen_script(rng, rng.choice(["map", "cursor", "struct", "reopen"]), rng.range(60, 200),
@@ -245,6 +250,18 @@ def lock_order_stage(run, work, nrandom):
                     run.cov["recursive_read_acquisitions"] = run.cov.get("recursive_read_acquisitions", 0) + int(t[5])
             if why:
                 run.violation({"kind": "lock-order", "script": ls, "fact": f, "harness": "h_lockord"}, why)
+        if name in need and facts and p.returncode == 0:
+            have = set()
+            for f in facts:
+                t = f.split()
+                if t and t[0] == "EDGE" and t[5] in ("put", "del", "setmeta", "cset", "cdel"):
+                    have.add((t[1], t[3]))
+            for e in need[name]:
+                if e not in have:
+                    run.violation({"kind": "lock-order", "script": ls, "fact": "MISSING %s %s" % e, "harness": "h_lockord"},
+                                  "lock skeleton: in a store opened with `%s` no mutating call takes the %s lock under the %s lock "
+                                  "(the skeleton put = store, database, allocator, file, log of the deadlock-freedom model): "
+                                  "concurrent writers are not serialised there" % (ls[0].split(" ", 2)[2], e[1], e[0]))
     run.cov["lock_order_edges_seen"] = len(seen)
     run.cov["lock_acquisitions_under_a_held_lock"] = sum(seen.values())
 
@@ -302,6 +319,11 @@ def replay(run, path):
                        env=dict(os.environ, LOCKORD_OUT=rep), timeout=300)
         facts = open(rep).read().split("\n") if os.path.exists(rep) else []
         shutil.rmtree(work, ignore_errors=True)
+        if r["fact"].startswith("MISSING"):
+            _, hc, ac = r["fact"].split()
+            hit = [] if any(f.split()[:1] == ["EDGE"] and f.split()[1] == hc and f.split()[3] == ac for f in facts) else ["still missing"]
+            print("recorded fact:", r["fact"]); print("reproduced:", hit)
+            return 1 if hit else 0
         key = r["fact"].split()[:5]
         hit = [f for f in facts if f.split()[:5] == key]
         print("recorded fact:", r["fact"]); print("reproduced:", hit[:3])
